@@ -12,7 +12,7 @@ Spec forms added to the clause language (all exact definitions or uninterpreted 
   ipow(b, e)         b**e (e >= 0)            modpow(b, e, m)   pow(b, e, m)          modinv(x, m)   pow(x, -1, m)
   gcd(a, b)          math.gcd                 bitlen(x)         int.bit_length
   bitand/bitor(a,b)  python's & and | on unbounded integers
-  tape(t, pos, n)    the n bytes of tape t at position pos;   systape()   the system tape;   tape_of(rf)   rf, or the system
+  tape(t, pos, n)    the n bytes of tape t at position pos (tapei(id, pos, n): the same by tape id);   systape()   the system tape;   tape_of(rf)   rf, or the system
                      tape when rf is None / os.urandom
   kwarg(name[, d])   value of the keyword `name` in the ENTRY **kwargs dict (the body pops from it)
 Lemma forms (each returns the ground instance of a theorem about an uninterpreted symbol, and records it as a fact; they are
@@ -30,6 +30,7 @@ from vf.pyvc.interp import BuiltinV, ClassV
 from vf.pyvc.contracts import Contract, ClassContract, apply_contract, fresh_typed
 
 TAPE = z3.Function('tape', INT, INT, INT, BYTES)
+models.SEQ_LEN_ARG['tape'] = 2            # len(tape(id, pos, n)) == n for n >= 0
 SYS_POS0 = z3.Int('sys_pos0')
 
 LEMMA_TEXT = ['be(a ++ b) == be(a) * 256**len(b) + be(b)   (positional notation; induction on len(b))',
@@ -109,7 +110,7 @@ def sf_bitor(E, st, args, kw):
 
 def sf_be_cat(E, st, args, kw):
     a, b = (zbytes(x) for x in args)
-    lb = z3.Length(b)
+    lb = models.seq_length(E, st, b)
     t = models.be_value(E, st, z3.Concat(a, b)) == models.be_value(E, st, a) * ops.pow2(E, st, 8 * lb) + models.be_value(E, st, b)
     st.fact(t)
     return val(st, mk_bool(t))
@@ -117,7 +118,7 @@ def sf_be_cat(E, st, args, kw):
 
 def sf_be_lt(E, st, args, kw):
     b = zbytes(args[0])
-    t = models.be_value(E, st, b) < ops.pow2(E, st, 8 * z3.Length(b))
+    t = models.be_value(E, st, b) < ops.pow2(E, st, 8 * models.seq_length(E, st, b))
     st.fact(t)
     return val(st, mk_bool(t))
 
@@ -172,13 +173,20 @@ def sf_lemma(E, st, args, kw):
 # ---------------------------------------------------------------- entropy tapes
 
 def sys_tape(E, st):
-    oid = st.ghost.get('sys_tape_oid')
+    # (ghost keys starting with '_' are not havocked at loop cuts)
+    oid = st.ghost.get('_sys_tape_oid')
     if oid is None or oid not in st.heap:
+        if not (st.frames and st.frame.spec_mode):
+            import inspect
+            if any(f.function == '_cut_loop' for f in inspect.stack(0)):
+                # the body of a loop cut by an invariant runs from an ARBITRARY iteration: creating the system tape there
+                # (cursor = its initial value) would be wrong for every iteration but the first
+                raise Unsupported('first use of the system RNG inside a loop cut by an invariant (peel the first iteration)')
         h = HObj('obj', cls=None)
         h.ghost_id = 'native.Tape'
         h.fields = {'g_id': 0, 'g_pos': SInt(SYS_POS0)}
         oid = st.alloc(h).oid
-        st.ghost['sys_tape_oid'] = oid
+        st.ghost['_sys_tape_oid'] = oid
         st.fact(SYS_POS0 >= 0)
     return Ref(oid)
 
@@ -210,6 +218,15 @@ def sf_tape(E, st, args, kw):
     return val(st, mk_bytes(r))
 
 
+def sf_tapei(E, st, args, kw):
+    """tape bytes by tape id (an int): usable inside spec functions that may be opaque"""
+    tid, pos, n = args
+    zn = zint(n)
+    r = TAPE(zint(tid), zint(pos), zn)
+    st.fact(z3.Implies(zn >= 0, z3.Length(r) == zn))
+    return val(st, mk_bytes(r))
+
+
 def sf_kwarg(E, st, args, kw):
     name = args[0]
     default = args[1] if len(args) > 1 else None
@@ -220,9 +237,18 @@ def sf_kwarg(E, st, args, kw):
     return val(st, src.heap[ref.oid].items.get(name, default))
 
 
+def sf_kwargs_only(E, st, args, kw):
+    """the ENTRY **kwargs dict has no key outside the given names"""
+    ref = st.frame.env.get('kwargs')
+    if not isinstance(ref, Ref):
+        raise Unsupported('kwargs_only() outside a function with **kwargs')
+    src = st.snap if (st.snap is not None and ref.oid in st.snap.heap) else st
+    return val(st, all(k in args for k in src.heap[ref.oid].items))
+
+
 FORMS = {'ival': sf_ival, 'ipow': sf_ipow, 'modpow': sf_modpow, 'modinv': sf_modinv, 'gcd': sf_gcd, 'bitlen': sf_bitlen,
          'bitand': sf_bitand, 'bitor': sf_bitor, 'be_cat': sf_be_cat, 'be_lt': sf_be_lt, 'modpow_reduce': sf_modpow_reduce, 'pow2_add': sf_pow2_add,
-         'lemma': sf_lemma, 'systape': sf_systape, 'tape_of': sf_tape_of, 'tape': sf_tape, 'kwarg': sf_kwarg}
+         'lemma': sf_lemma, 'systape': sf_systape, 'tape_of': sf_tape_of, 'tape': sf_tape, 'tapei': sf_tapei, 'kwarg': sf_kwarg, 'kwargs_only': sf_kwargs_only}
 for _nm, _fn in FORMS.items():
     interp.SPEC_BUILTINS.setdefault(_nm, BuiltinV('spec.' + _nm, _fn))
 
